@@ -84,6 +84,19 @@ class Died(Exception):
     pass
 
 
+API_COVER = set()   # "<flavour>:<op>" of every request sent to the real library in this worker (reported in the evidence)
+
+
+def cover_program(flavour, prog):
+    """Record the operations of an actor program (fsx executions do not go through OpServer.call)."""
+    if isinstance(prog, dict):
+        if "op" in prog:
+            API_COVER.add("%s:%s" % (flavour, prog["op"]))
+    elif isinstance(prog, (list, tuple)):
+        for x in prog:
+            cover_program(flavour, x)
+
+
 class OpServer:
     """One long-lived opserver process (JSON lines)."""
 
@@ -127,6 +140,7 @@ class OpServer:
         if self.p is None:
             self.start()
         self.calls += 1
+        API_COVER.add("%s:%s" % (self.flavour, req.get("op")))
         line = (json.dumps(req, ensure_ascii=True) + "\n").encode()
         try:
             self.p.stdin.write(line)
